@@ -3,6 +3,8 @@ import Ark.Props.C02
 import Ark.Props.C08
 import Ark.Proofs.Rejects
 import Ark.Props.C16World
+import Ark.Proofs.GenBridge.BookPool
+import Ark.Proofs.GenBridge.BookArchetype
 
 namespace Ark.Props.C16
 open Ark
@@ -79,5 +81,28 @@ theorem world_reset_keeps_observer_id_pool : type_of% @Ark.Props.C16World.reset_
 
 theorem world_failed_register_keeps_no_id : type_of% @Ark.Props.C16World.failed_register_keeps_no_id := @Ark.Props.C16World.failed_register_keeps_no_id
 
+
+
+/-! ### The code itself: the relation-index bookkeeping of archetype.go, translated statement by statement on every run -/
+
+/-- `archetype.FreeAllTables` as in the source = the model's `freeAllTables`: every per-column lookup and the per-target lookup are emptied -/
+theorem src_freeAllTables : type_of% @Ark.GenBridge.Book.freeAllTables_eq := @Ark.GenBridge.Book.freeAllTables_eq
+/-- … and exactly the archetype's active tables are marked free in the table store -/
+theorem src_freeAllTables_storage : type_of% @Ark.GenBridge.Book.freeAllTables_storage := @Ark.GenBridge.Book.freeAllTables_storage
+/-- what marking a list of tables free does to the table store -/
+theorem src_markFree : type_of% @Ark.GenBridge.Book.markFree_fold := @Ark.GenBridge.Book.markFree_fold
+
+/-! ### The code itself: `bitPool` of pool.go (the lock bits), translated statement by statement on every run -/
+
+/-- `bitPool.Get`/`getNew` as in the source = the model's `BitPool.get` (panic at 64 bits) -/
+theorem src_bitPool_get' : type_of% @Ark.GenBridge.Book.bitPool_get_eq := @Ark.GenBridge.Book.bitPool_get_eq
+/-- `bitPool.Recycle` as in the source = the model's -/
+theorem src_bitPool_recycle' : type_of% @Ark.GenBridge.Book.bitPool_recycle_eq := @Ark.GenBridge.Book.bitPool_recycle_eq
+/-- `bitPool.Reset` as in the source = the model's (all three counters cleared) -/
+theorem src_bitPool_reset : type_of% @Ark.GenBridge.Book.bitPool_reset_eq := @Ark.GenBridge.Book.bitPool_reset_eq
+/-- `intPool.Reset` (cache and observer IDs) as in the source = the model's -/
+theorem src_intPool_reset : type_of% @Ark.GenBridge.Book.intPool_reset_eq := @Ark.GenBridge.Book.intPool_reset_eq
+/-- `entityPool.Reset` as in the source: slice truncated to the reserved entries, free list emptied -/
+theorem src_pool_reset' : type_of% @Ark.GenBridge.Book.entityPool_reset_eq := @Ark.GenBridge.Book.entityPool_reset_eq
 
 end Ark.Props.C16
